@@ -184,25 +184,10 @@ def local_lt_len(f, L, b):
         if not _mentions_len(f.expr_operand(rv['b'], sblk, 'T')):
             continue
         between = f.reach_from(sblk)
-        clobber = [d for d in defs_L if d[1] in between and d[1] != sblk and b in f.reach_from(d[1]) and d[1] != b and f.dominates(sblk, d[1]) and not _back_only(f, d[1], b, sblk)]
+        clobber = [d for d in defs_L if d[1] in between and d[1] != sblk and b in f.reach_from(d[1]) and d[1] != b and f.dominates(sblk, d[1]) and not back_only(f, d[1], b, sblk)]
         if not clobber:
             return True
     return False
-
-
-def _back_only(f, x, b, sblk):
-    """x reaches b only by going around the loop through sblk again (so the test is re-evaluated after the reassignment)"""
-    seen = set()
-    st = [x]
-    while st:
-        y = st.pop()
-        for z in f.succs(y):
-            if z == sblk or z in seen:
-                continue
-            if z == b:
-                return False
-            seen.add(z); st.append(z)
-    return True
 
 
 def auto_safe(f, kind, site):
